@@ -406,8 +406,14 @@ class Report:
             self.violations.append(Violation(rid, key, msg, where))
 
     def floor(self, rid, what, n, floor):
+        """the rule found fewer instances than were counted by hand on the reference tree: a protected construct was
+        removed, or rewritten in a shape the rule does not recognise. Reported as a violation of the rule (the check goes
+        on with its other rules), so that the report names what disappeared."""
         if n < floor:
-            raise CheckError("floor not reached for %s: %s = %d < %d (anchor lost or matcher broken)" % (rid, what, n, floor))
+            self.inst(rid, "floor / %s" % what, False,
+                      "%s: only %d of the %d instances counted on the reference tree are left (%s): one of the constructs this "
+                      "rule protects was removed or rewritten in a shape it does not recognise — the property is not decided "
+                      "for it" % (rid, n, floor, what), "")
 
     def note(self, s):
         self.notes.append(s)
